@@ -228,6 +228,19 @@ def m_slice_split(it, callee, args, m):
     return LazyIter(gen())
 
 
+def m_slice_chunks(it, callee, args, m):
+    """<[T]>::chunks / chunks_exact(k): consecutive sub-slices of k elements (chunks: plus a shorter last one); k concrete (<= 8)"""
+    sl = as_slice(args[0])
+    k = it.ctx.choose(args[1].t, list(range(1, 9)))
+    out, i, n = [], 0, len(sl)
+    while i + k <= n:
+        out.append(SliceRef(sl.vec, sl.lo + i, sl.lo + i + k))
+        i += k
+    if i < n and "chunks_exact" not in callee:
+        out.append(SliceRef(sl.vec, sl.lo + i, sl.lo + n))
+    return SeqIter(out)
+
+
 def m_slice_first(it, callee, args, m):
     sl = as_slice(args[0])
     return some(Ref(sl.vec.elems[sl.lo])) if len(sl) else NONE()
@@ -2214,6 +2227,7 @@ def m_vec_resize(it, callee, args, m):
 
 IT = r"(?:<.* as (?:Iterator|DoubleEndedIterator|ExactSizeIterator|IntoIterator)>|Iterator|DoubleEndedIterator)"
 MODELS = [
+    (r"^core::slice::<impl \[.*\]>::chunks(_exact)?$", m_slice_chunks),
     (r"^(std::|alloc::)?slice::<impl \[(std::string::)?String\]>::join::<&str>$", m_str_join),
     (r"^(core|std|alloc)::str::<impl str>::lines$", m_str_lines),
     (r"^<(std::option::)?Option<.*> as Default>::default$", lambda it, c, a, m: NONE()),
